@@ -7,6 +7,7 @@ Decided:
          min-accumulator for start and a max-accumulator for end over the children
   R10.3  a container's `scheduled` flag is control dependent on an all-children-scheduled test
   R10.4  container dates are written from the roll-up values; the final pass visits children first
+  R10.5  both roll-ups write the container dates unconditionally with respect to the container's own dates
 Not decided: equality of container dates with the children's extremes (runtime values).
 """
 from __future__ import annotations
@@ -58,7 +59,7 @@ def run(ctx: Ctx):
            key="R10.1|Task.schedule|callers")
     for n in own_nodes(ss):
         if isinstance(n, (ast.Assign, ast.AnnAssign)) and norm(n.targets[0] if isinstance(n, ast.Assign) else n.target) == "tasks" \
-                and isinstance(n.value, ast.ListComp):
+                and isinstance(n.value, ast.ListComp) and not any(norm(g_.iter) == "tasks" for g_ in n.value.generators):
             conds = " and ".join(norm(c) for g_ in n.value.generators for c in g_.ifs)
             ok = "t.leaf()" in conds.replace(" ", "") or ".leaf()" in conds
             ctx.ob("R10.1", f"{ss.qual}: work list filter [{conds}]", (ss, n), ok, "containers never enter the work list" if ok else
@@ -88,6 +89,74 @@ def run(ctx: Ctx):
     ctx.ob("R10.1", f"{avail.qual}: a resource without slot table is never available", avail, bool(oks) and all(oks),
            "return True only when self.scoreboard exists" if oks and all(oks) else "a group resource (no slot table) can be reported available",
            key="R10.1|available|scoreboard")
+    # ---------------------------------------------------------------- R10.1 (cont.) who may create a slot table
+    initsb = repo.func("ResourceScenario.initScoreboard")
+    sites = [(f, c) for f in repo.all_funcs() for c in own_nodes(f)
+             if isinstance(c, ast.Call) and isinstance(c.func, ast.Attribute) and c.func.attr == "initScoreboard"
+             and f.module.rel.startswith("scriptplan/core/") and "scoreboard" not in f.module.rel.split("/")[-1].replace("resource_scenario", "")]
+    for f, c in sites:
+        ok = f is prep
+        if not ok:
+            # also fine: reached only where available() already answered True (it answers False without a slot table, see the
+            # rule below), so the call is dead for a resource that has none; a `force` escape needs a caller that forces
+            cl = facts_of(f).holds(cfg_of(f).node_containing(c), lambda t, p_: p_ and (
+                t == "force" or t.startswith("self.available(") or t == "self.property.leaf()"))
+            if cl is not None and any(t != "force" for (t, _p) in cl):
+                forced = [cc for (_cf, cc) in ctx.cg.callers(f) if len(cc.args) > 2 or any(
+                    k.arg == "force" and not (isinstance(k.value, ast.Constant) and k.value.value is False) for k in cc.keywords)]
+                ok = not forced or all(t != "force" for (t, _p) in cl)
+        ctx.ob("R10.1", f"{f.qual}: {norm(c)}", (f, c), ok,
+               "slot tables are created by prepareScheduling only (under its leaf guard)" if ok else
+               f"{f.qual} creates a resource slot table directly, bypassing prepareScheduling's leaf guard: a resource GROUP that is "
+               "allocated gets a slot table of its own and is booked",
+               key=key_of("R10.1", f, None, "initScoreboard call"))
+    if not sites:
+        raise AnchorMissing("no call of ResourceScenario.initScoreboard found")
+    # ---------------------------------------------------------------- R10.5 roll-up writes are unconditional
+    from ..order import local_resolver
+    from .common import enclosing_ifs
+    for fn, cont in ((upd, ("task",)), (sc, ("self.property", "self"))):
+        res_f = local_resolver(fn.node)
+        for pid in ("start", "end"):
+            for atoms, node, scx, tgt in pattr_writes(ctx, fn, pid):
+                own_reads = []
+                for (i, b) in enclosing_ifs(node.ast, fn.node):
+                    exprs = [i.test]
+                    for x in ast.walk(i.test):
+                        if isinstance(x, ast.Name):
+                            exprs += res_f(x)
+                    for e in exprs:
+                        for x in ast.walk(e):
+                            if isinstance(x, ast.Call) and isinstance(x.func, ast.Attribute) and x.func.attr in ("get", "a") and x.args \
+                                    and isinstance(x.args[0], ast.Constant) and x.args[0].value in ("start", "end") \
+                                    and norm(x.func.value) in cont:
+                                own_reads.append(norm(x))
+                            elif isinstance(x, ast.Subscript) and norm(x.value) in cont and isinstance(x.ctx, ast.Load) \
+                                    and any(isinstance(k, ast.Constant) and k.value in ("start", "end") for k in ast.walk(x.slice)):
+                                own_reads.append(norm(x))
+                ok = not own_reads
+                ctx.ob("R10.5", f"{fn.qual}: {norm(node.ast)} independent of the container's own dates", (fn, node.ast), ok,
+                       "the roll-up value replaces whatever the container carried" if ok else
+                       f"the write is guarded by the container's own date ({sorted(set(own_reads))}): a container that carries a start / end "
+                       "of its own keeps it instead of the min / max of its children",
+                       key=f"R10.5|{fn.qual}|conditional roll-up write")
+    # ---------------------------------------------------------------- R10.4 (cont.) the final pass is the post-order recursion
+    finsc = repo.func("Project.finishScenario")
+    sc_sites = [(f, c) for f in repo.all_funcs() for c in own_nodes(f)
+                if isinstance(c, ast.Call) and isinstance(c.func, ast.Attribute) and c.func.attr == "scheduleContainer"]
+    for f, c in sc_sites:
+        ok = f is fin
+        ctx.ob("R10.4", f"{f.qual}: {norm(c)}", (f, c), ok,
+               "containers are closed only by the children-first recursion" if ok else
+               f"{f.qual} closes a container outside the children-first recursion: in a deep tree an outer container is rolled up "
+               "before the inner ones have their dates",
+               key=key_of("R10.4", f, None, "scheduleContainer call"))
+    roots = [c for c in own_nodes(finsc) if isinstance(c, ast.Call) and isinstance(c.func, ast.Attribute) and c.func.attr == "finishScheduling"
+             and "task" in norm(c.func.value)]
+    ok = bool(roots) and bool(sc_sites)
+    ctx.ob("R10.4", f"{finsc.qual}: final pass starts the recursion at the task roots", finsc, ok,
+           "task.finishScheduling() from finishScenario" if ok else "finishScenario no longer runs the children-first recursion over the tasks",
+           key="R10.4|Project.finishScenario|recursion")
     # ---------------------------------------------------------------- R10.2
     for fn, exp in ((upd, {"min_start": "child_start", "max_end": "child_end"}), (sc, {"n_start": "child_start", "n_end": "child_end"})):
         found = {}
@@ -139,7 +208,8 @@ def run(ctx: Ctx):
     ok = "loop" in kinds and "container" in kinds and kinds.index("loop") < kinds.index("container")
     ctx.ob("R10.4", f"{fin.qual}: children before the container {kinds}", fin, ok, "post-order: nested containers are summarised bottom-up" if ok else
            "final roll-up does not process children before their container", key="R10.4|finishScheduling|order")
-    ctx.floor("R10.1", 5)
+    ctx.floor("R10.1", 6)
+    ctx.floor("R10.5", 4)
     ctx.floor("R10.2", 6)
     ctx.floor("R10.3", 2)
-    ctx.floor("R10.4", 6)
+    ctx.floor("R10.4", 8)
